@@ -5,6 +5,8 @@ import Nlmodel.Model.Printer
 import Nlmodel.Proofs.Lemmas.Pratt
 import Nlmodel.Proofs.C08
 import Nlmodel.Proofs.Lemmas.RoundTrip
+import Nlmodel.Proofs.Lemmas.FloatText
+import Nlmodel.Proofs.Lemmas.ParsedFloats
 namespace Nl
 namespace C07
 
@@ -147,6 +149,13 @@ example : RTF.WB (.cons (.expr (.func ['f'] [['a'], ['b']]
       (.cons _ _ (.ret _ (.index _ _ rfl (.arr _ (.cons _ _ (.ident _) (.cons _ _ (.call _ _ rfl (.ident _) (.cons _ _ (.ident _) (.cons _ _ (.ident _) .nil))) .nil))) (.int 0 (by decide) (by decide)))) .nil)
       (.some _ (.cons _ _ (.expr _ (.assign _ _ rfl (.ident _) (.pre _ _ (.inr rfl) (.ident _)))) .nil))))
     (.cons _ _ (.expr _ (.whileE _ _ (.pre _ _ (.inl rfl) (.bool _)) (.cons _ _ .brk .nil))) .nil)))) .nil
+
+/-- THE FLOAT-LITERAL HYPOTHESIS OF THE ROUND TRIP IS A THEOREM: every finite, non-negative float that is not NaN — what a
+    number token can denote, `C01_parsed_float_literals_are_plain` — is printed as a literal that reads back as the same
+    float (`RTF.FloatRT`, the side condition of `C07_print_parse_whole_grammar` on `.float` nodes).  (`+∞` can be written as
+    a literal of 309 digits; it prints as `inf.0`, which is not a number token: `F64T.not_floatRT_inf`.) -/
+theorem C07_float_literals_read_back (x : UInt64) (h : SimH.LitF x) (hfin : F64.isInf x = false) : RTF.FloatRT x :=
+  F64T.floatRT_of_litF x h hfin
 
 end C07
 end Nl
